@@ -133,6 +133,8 @@ def render(spec, t, cur, full):
             return q(b, s) + '%s:%s' % (col(c1), col(c2))
         if k == 'name':
             return names[t[1]]['name']
+        if k == 'uni':
+            return '(%s)' % ','.join(go(a) for a in t[1:])
         if k == 'neg':
             return '-(%s)' % go(t[1])
         if k == 'bin':
@@ -347,6 +349,9 @@ def tree_form(spec, t, cur):
             go(t[2]); go(t[3])
         elif k == 'neg':
             go(t[1])
+        elif k == 'uni':
+            for a in t[1:]:
+                go(a)
         elif k == 'fn':
             for a in t[2:]:
                 go(a)
@@ -571,6 +576,17 @@ def _range_arg(draw, ctx):
 
 
 @st.composite
+def _agg_arg(draw, ctx):
+    """argument of an aggregate: a range-like operand or, one time in six, a bracketed union of two on one sheet"""
+    a = draw(_range_arg(ctx))
+    if draw(st.integers(0, 5)) == 0 and a[0] in ('rng', 'ref'):
+        b = draw(_range_arg(ctx))
+        if b[0] in ('rng', 'ref') and b[1][:2] == a[1][:2]:
+            return ['uni', a, b]
+    return a
+
+
+@st.composite
 def _tree(draw, ctx, depth):
     k = draw(st.integers(0, 99))
     if depth >= 3 or k < 30:
@@ -582,9 +598,12 @@ def _tree(draw, ctx, depth):
         op = draw(st.sampled_from(['+', '-', '*', '/', '+', '-', '*']))
         return ['bin', op, draw(_tree(ctx, depth + 1)), draw(_tree(ctx, depth + 1))]
     if k < 63:
-        name = draw(st.sampled_from(['SUM', 'SUM', 'MIN', 'MAX', 'COUNT', 'AVERAGE']))
+        name = draw(st.sampled_from(['SUM', 'SUM', 'MIN', 'MAX', 'COUNT', 'AVERAGE', 'SUM', 'MIN', 'MAX', 'COUNT', 'AVERAGE', 'LARGE', 'SMALL']))
+        if name in ('LARGE', 'SMALL'):
+            # k-th value: the position of the arguments matters (a union must stay ONE argument)
+            return ['fn', name, draw(_agg_arg(ctx)), ['num', float(draw(st.integers(1, 4)))]]
         n = draw(st.integers(1, 2))
-        return ['fn', name] + [draw(_range_arg(ctx)) for _ in range(n)]
+        return ['fn', name] + [draw(_agg_arg(ctx)) for _ in range(n)]
     if k < 73:
         cond = draw(_cond(ctx, depth + 1))
         return ['fn', 'IF', cond, draw(_tree(ctx, depth + 1)), draw(_tree(ctx, depth + 1))]
